@@ -700,3 +700,210 @@ def gen_form(repo, res):
         a, b = results.get(("C", label)), results.get(("numba", label))
         if a is not None and b is not None and a != b:
             res.fail(key, f"`{label}`: C emits (offsets, kernels, ids, positions) = {a}, numba emits {b}", "ffcx/codegeneration/numba/form.py", props=("C18",))
+
+
+# ---- GEN-PARTITION -------------------------------------------------------------------------------------------
+
+
+@rule(
+    "GEN-PARTITION",
+    ["C11", "C01"],
+    "IntegralGenerator.init_scopes / set_var / get_var / generate_partition interpreted on a sample factorisation "
+    "graph with two quadrature rules: a value is found in the scope of the rule it was generated for and in no other "
+    "rule's scope; the shared piecewise scope is a fallback for operands only and the own scope wins; a node cached in "
+    "the piecewise scope (by another rule) does not suppress the varying definition of this rule, whose operands are the "
+    "accesses of this rule",
+    min_instances=8,
+)
+def gen_partition(repo, res):
+    m = repo.mod(IG)
+    fn = {n: m.func(f"IntegralGenerator.{n}") for n in ("init_scopes", "set_var", "get_var", "generate_partition")}
+    res.functions.update(f.key for f in fn.values())
+    loc = m.line(fn["generate_partition"].node)
+
+    def world():
+        I = Interp(repo, load_classes(repo), primary=IG)
+        I.obj_classes = {"IntegralGenerator": IG}
+        r1 = Node("QuadratureRule", id=_PyCall(lambda: "r1"))
+        r2 = Node("QuadratureRule", id=_PyCall(lambda: "r2"))
+        integrand = {("triangle", r1): {}, ("triangle", r2): {}}
+        log = []
+
+        def access_get(mt, tabledata, rule):
+            log.append(("access", mt.f["name"], rule.f["id"].fn() if isinstance(rule, Node) else None))
+            return Node("Acc", of=mt.f["name"], rule=rule.f["id"].fn() if isinstance(rule, Node) else None)
+
+        def defs_get(mt, tabledata, rule, acc):
+            return Node("Section", name=f"def_{mt.f['name']}_{acc.f['rule']}", statements=[], declarations=[], input=[], output=[])
+
+        backend = Node("FFCXBackend", access=Node("Access", get=_PyCall(access_get)), definitions=Node("Defs", get=_PyCall(defs_get)))
+        gen = Node("IntegralGenerator", ir=Node("IntegralIR", expression=Node("ExpressionIR", integrand=integrand)), backend=backend, _ufl_names=set())
+        I.overrides["optimize"] = _PyCall(lambda code, rule=None: code)
+        I.overrides["extract_dtype"] = _PyCall(lambda v, vops: "DataType.SCALAR")
+
+        def to_lnodes(v, *ops):
+            e = I.construct("Symbol", [f"op_{v.f['name']}", "DataType.SCALAR"], {})
+            e.f["of"] = v.f["name"]
+            e.f["args"] = list(ops)
+            return e
+        I.overrides["L.ufl_to_lnodes"] = _PyCall(to_lnodes)
+        return I, gen, r1, r2, log
+
+    def uexpr(name, ops=(), literal=False):
+        return Node("UflExpr", name=name, _ufl_is_literal_=literal, ufl_operands=list(ops), _ufl_handler_name_=name)
+
+    f_ = uexpr("f")
+    c_ = uexpr("c")
+    sinf = uexpr("sin_f", [f_])
+    cf = uexpr("c_times_f", [c_, f_])
+    F = Node("ExpressionGraph", nodes={
+        0: {"status": "varying", "expression": f_, "mt": Node("ModifiedTerminal", name="f"), "tr": Node("Table", name="FE_f")},
+        1: {"status": "varying", "expression": sinf},
+        2: {"status": "piecewise", "expression": c_, "mt": Node("ModifiedTerminal", name="c"), "tr": None},
+        3: {"status": "varying", "expression": cf},
+    })
+
+    def run(I, what, f, *args):
+        try:
+            return I.call_f(f, list(args))
+        except Raised as e:
+            raise _Fail(f"{what} raises ({e.what})")
+
+    class _Fail(Exception):
+        pass
+
+    def scenario(key, body):
+        res.ob(key)
+        try:
+            msg = body()
+        except _Fail as e:
+            msg = str(e)
+        if msg:
+            res.fail(key, msg, loc)
+
+    def init():
+        I, gen, r1, r2, log = world()
+        run(I, "init_scopes", fn["init_scopes"], gen)
+        return I, gen, r1, r2, log
+
+    base = f"{m.name}:IntegralGenerator"
+
+    def s_init():
+        I, gen, r1, r2, log = init()
+        sc = gen.f.get("scopes")
+        if not isinstance(sc, dict):
+            return "init_scopes does not create the scope map"
+        want = {("triangle", r1), ("triangle", r2), (None, None)}
+        if set(sc.keys()) != want or len({id(v) for v in sc.values()}) != 3 or any(len(v) for v in sc.values()):
+            return f"scopes are created for {sorted(str(k) for k in sc)}; one empty scope per (cell, rule) key of the integrand map plus the piecewise scope (None, None) is required"
+    scenario(f"{base}.init_scopes:one-scope-per-rule", s_init)
+
+    def s_store():
+        I, gen, r1, r2, log = init()
+        a = Node("Acc", of="f", rule="r1")
+        run(I, "set_var", fn["set_var"], gen, r1, "triangle", f_, a)
+        if run(I, "get_var", fn["get_var"], gen, r1, "triangle", f_) is not a:
+            return "a value stored with set_var(rule, cell, v, access) is not returned by get_var(rule, cell, v)"
+        got = run(I, "get_var", fn["get_var"], gen, r2, "triangle", f_)
+        if got is not None:
+            return f"a value stored for rule r1 is returned by get_var for rule r2 ({got!r}): values at r1's points would be used in r2's loop"
+    scenario(f"{base}.set_var:key", s_store)
+
+    def s_fallback():
+        I, gen, r1, r2, log = init()
+        pw, own = Node("Acc", of="c", rule=None), Node("Acc", of="c", rule="r2")
+        run(I, "set_var", fn["set_var"], gen, None, None, c_, pw)
+        if run(I, "get_var", fn["get_var"], gen, r2, "triangle", c_) is not pw:
+            return "get_var does not fall back to the piecewise scope (None, None): piecewise operands are not found by the varying partition"
+        run(I, "set_var", fn["set_var"], gen, r2, "triangle", c_, own)
+        if run(I, "get_var", fn["get_var"], gen, r2, "triangle", c_) is not own:
+            return "get_var prefers the shared piecewise scope over the scope of its own (cell, rule)"
+        if run(I, "get_var", fn["get_var"], gen, r1, "triangle", c_) is not pw:
+            return "a value stored for (cell, r2) changed what rule r1 sees"
+    scenario(f"{base}.get_var:own-scope-first", s_fallback)
+
+    def s_literal():
+        I, gen, r1, r2, log = init()
+        lit = uexpr("two", literal=True)
+        got = run(I, "get_var", fn["get_var"], gen, r1, "triangle", lit)
+        if not (isinstance(got, Node) and got.f.get("of") == "two"):
+            return f"get_var of a literal returns {got!r} instead of translating the literal"
+    scenario(f"{base}.get_var:literal", s_literal)
+
+    sym = lambda I, n: I.construct("Symbol", [n, "DataType.SCALAR"], {})  # noqa: E731
+
+    def gen_part(I, gen, mode, rule, cell, name):
+        out = run(I, "generate_partition", fn["generate_partition"], gen, sym(I, name), F, mode, rule, cell)
+        if not (isinstance(out, tuple) and len(out) == 2):
+            raise AnalysisError("generate_partition did not return (definitions, intermediates)")
+        return out
+
+    def acc(x, rule, of=None):
+        return isinstance(x, Node) and x.cls == "Acc" and x.f.get("rule") == rule and (of is None or x.f.get("of") == of)
+
+    def decl_of(intermediates, of):
+        for d in intermediates:
+            if isinstance(d, Node) and d.cls == "VariableDecl" and isinstance(d.f.get("value"), Node) and d.f["value"].f.get("of") == of:
+                return d
+        return None
+
+    def s_varying():
+        I, gen, r1, r2, log = init()
+        gen_part(I, gen, "piecewise", None, None, "sp_r1")
+        defs, inter = gen_part(I, gen, "varying", r1, "triangle", "sv_r1")
+        if [d.f["name"] for d in defs] != ["def_f_r1"]:
+            return f"the varying partition of rule r1 emits definitions {[d.f['name'] for d in defs]}, expected the definition of f at r1's points"
+        d1 = decl_of(inter, "sin_f")
+        d3 = decl_of(inter, "c_times_f")
+        if d1 is None or d3 is None:
+            return "the varying partition does not declare an intermediate for every varying operator node"
+        a = d1.f["value"].f["args"]
+        if not (len(a) == 1 and acc(a[0], "r1")):
+            return f"sin(f) of rule r1 is computed from {a!r}, not from f at r1's points"
+        b = d3.f["value"].f["args"]
+        if not (len(b) == 2 and acc(b[0], None, "c") and acc(b[1], "r1")):
+            return f"c*f of rule r1 is computed from {b!r}: the piecewise operand c must come from the piecewise scope, f from r1's scope"
+        if run(I, "get_var", fn["get_var"], gen, r1, "triangle", sinf) is not d1.f["symbol"]:
+            return "the generated intermediate is not stored under the key (cell, rule) of the partition being generated"
+    scenario(f"{base}.generate_partition:store-key", s_varying)
+
+    def s_two_rules():
+        I, gen, r1, r2, log = init()
+        gen_part(I, gen, "piecewise", None, None, "sp_r1")
+        gen_part(I, gen, "varying", r1, "triangle", "sv_r1")
+        gen_part(I, gen, "piecewise", None, None, "sp_r2")
+        defs, inter = gen_part(I, gen, "varying", r2, "triangle", "sv_r2")
+        if [d.f["name"] for d in defs] != ["def_f_r2"]:
+            return f"after rule r1 was generated, the varying partition of rule r2 emits definitions {[d.f['name'] for d in defs]}: f must be defined again at r2's points"
+        d1 = decl_of(inter, "sin_f")
+        if d1 is None:
+            return "after rule r1 was generated, rule r2 does not compute sin(f) again (it would reuse r1's value)"
+        a = d1.f["value"].f["args"]
+        if not (len(a) == 1 and acc(a[0], "r2")):
+            return f"sin(f) of rule r2 is computed from {a!r}, not from f at r2's points"
+    scenario(f"{base}.generate_partition:operand-lookup", s_two_rules)
+
+    def s_stale():
+        I, gen, r1, r2, log = init()
+        # another rule's piecewise partition (e.g. a one-point rule, for which everything is piecewise) cached f and sin(f)
+        run(I, "set_var", fn["set_var"], gen, None, None, f_, Node("Acc", of="f", rule="STALE"))
+        run(I, "set_var", fn["set_var"], gen, None, None, sinf, Node("Acc", of="sin_f", rule="STALE"))
+        defs, inter = gen_part(I, gen, "varying", r2, "triangle", "sv_r2")
+        d1 = decl_of(inter, "sin_f")
+        if [d.f["name"] for d in defs] != ["def_f_r2"] or d1 is None:
+            return ("generate_partition decides `already generated` from the shared piecewise scope: a value cached by another rule's piecewise "
+                    "partition (e.g. sin(f) at the single point of a degree-1 rule) suppresses this rule's varying definition - "
+                    "sin(f)*v*dx(degree=1) + sin(f)*v*dx(degree=4) integrates the second term with f frozen at the first rule's point")
+        a = d1.f["value"].f["args"]
+        if not (len(a) == 1 and acc(a[0], "r2")):
+            return f"sin(f) of rule r2 is computed from the stale piecewise value {a!r}"
+    scenario(f"{base}.generate_partition:regeneration-guard", s_stale)
+
+    def s_mode():
+        I, gen, r1, r2, log = init()
+        defs, inter = gen_part(I, gen, "piecewise", None, None, "sp_r1")
+        if [d.f["name"] for d in defs] != ["def_c_None"] or inter:
+            return f"the piecewise partition emits {[d.f['name'] for d in defs]} / {len(inter)} intermediates; only nodes whose status is `piecewise` belong to it"
+        if run(I, "get_var", fn["get_var"], gen, r1, "triangle", c_) is None:
+            return "values of the piecewise partition are not visible to the rules"
+    scenario(f"{base}.generate_partition:mode-filter", s_mode)
